@@ -129,34 +129,6 @@ func (r *scriptByteReader) ReadByte() (byte, error) {
 	return b, nil
 }
 
-func jsonStripWS(s string) string {
-	var sb strings.Builder
-	inQ, esc := false, false
-	for i := 0; i < len(s); i++ {
-		ch := s[i]
-		if inQ {
-			sb.WriteByte(ch)
-			if esc {
-				esc = false
-			} else if ch == '\\' {
-				esc = true
-			} else if ch == '"' {
-				inQ = false
-			}
-			continue
-		}
-		switch ch {
-		case ' ', '\t', '\n', '\r':
-		case '"':
-			inQ = true
-			sb.WriteByte(ch)
-		default:
-			sb.WriteByte(ch)
-		}
-	}
-	return sb.String()
-}
-
 // c13Exec runs one execution (under the current chooser) and checks it.
 // c13BigDoc: a well-formed document of about n bytes in the family of the given one (XML or JSON).
 func c13BigDoc(json bool, n int) string {
@@ -374,8 +346,8 @@ func c13Exec(c *Ctx, k c13Case, choices []int) {
 			for i := 0; i < len(k.Docs); i++ {
 				raw := results[i].raw
 				if isJSON {
-					if string(raw) != jsonStripWS(k.Docs[i]) {
-						viol("raw", fmt.Sprintf("call %d raw=%q, expected %q", i+1, raw, jsonStripWS(k.Docs[i])))
+					if strings.TrimSpace(string(raw)) != k.Docs[i] {
+						viol("raw", fmt.Sprintf("call %d raw=%q, expected the document %q", i+1, raw, k.Docs[i]))
 						return
 					}
 				} else {
@@ -419,8 +391,8 @@ func c13Exec(c *Ctx, k c13Case, choices []int) {
 			break
 		}
 		if isJSON {
-			if string(raw) != jsonStripWS(k.Docs[i]) {
-				viol("raw", fmt.Sprintf("handler raw %d = %q, expected %q", i+1, raw, jsonStripWS(k.Docs[i])))
+			if strings.TrimSpace(string(raw)) != k.Docs[i] {
+				viol("raw", fmt.Sprintf("handler raw %d = %q, expected the document %q", i+1, raw, k.Docs[i]))
 			}
 		} else if !bytes.Contains(raw, []byte(k.Docs[i])) {
 			viol("raw", fmt.Sprintf("handler raw %d = %q does not contain %q", i+1, raw, k.Docs[i]))
@@ -436,7 +408,7 @@ func c13Run(c *Ctx) {
 	c.S.Rule = "cases = (stream, function, reader kind, handler stop point); streams are concatenations of 1..3 documents (XML: <a/>, <a>x</a>, <a b=\"1\"><c/>t</a>, a document with XML declaration, a document with 2-, 3- and 4-byte characters in names and values (every delivery split falls inside them); JSON: {\"a\":1}, a string value with braces and quotes, a string ending in an escaped backslash, a string with an escaped backslash followed by an escaped quote, nested object/array with a bracket in a string, multi-byte characters in key and value) with separators {none, space, newline+tab} and optional trailing blanks; functions NewMapXmlReader[Raw], NewMapXmlSeqReader[Raw], NewMapJsonReader[Raw], HandleXmlReader[Raw], HandleJsonReader[Raw] (map handler returning false at every k), x2j-wrapper ToMap / XmlMsgsFromReader; reader kinds plain io.Reader and io.Reader+io.ByteReader. Schedules (E-choice): every Read call is a choice point - default full delivery, short read, (0,nil) (at most 2 in a row), final data together with io.EOF - explored exhaustively for deviation bound 0,1,2 (3 in thorough on single documents); plus patterned schedules with 50 and 97 empty reads before every delivery (bound 1 over the remaining choices); plus large first documents (about 4090, 4096, 4100 and 9000 bytes: around the 4096-byte buffers of bufio and the tokenizer) followed by a small one, delivered whole, 1 byte, 7 bytes and 4096 bytes per Read (bound 0); the JSON functions also under JsonUseNumber (bound 1). Oracle: results = direct decodes in order then io.EOF, no over-read into the next document, Raw values as documented, handlers once per document in order and stop on false, termination within the reader horizon. non-trivial = executions with at least one deviation (counted in counters.deviating_schedules)."
 	c.S.Assumptions = []string{"JSON raw = the document with JSON-insignificant white space removed (the implementation strips it by design)", "the empty JSON object {} is not in the alphabet (handlers treat an empty Map as 'nothing arrived yet' by design)", "an io.ByteReader cannot legally deliver a byte together with an error, so that kind has only the default schedule"}
 	xmlDocs := []string{`<a/>`, `<a>x</a>`, `<a b="1"><c/>t</a>`, `<?xml version="1.0"?><a>y</a>`, "<\u00e9 k=\"\u20ac\">\U0001F600</\u00e9>"}
-	jsonDocs := []string{`{"a":1}`, `{"a":"}{\""}`, `{"a":"x\\"}`, `{"a":{"b":[1,{"c":"]"}]}}`, `{"e":"\\\"{"}`, `{"p":"C:\\dir\\ "}`, "{\"\u00e9\":\"\u20ac\U0001F600\"}", "{\"p\":\"C:\\\\\u20ac\"}"}
+	jsonDocs := []string{`{"a":1}`, `{"a":"}{\""}`, `{"a":"x\\"}`, `{"a":{"b":[1,{"c":"]"}]}}`, `{"e":"\\\"{"}`, `{"p":"C:\\dir\\ "}`, "{\"\u00e9\":\"\u20ac\U0001F600\"}", "{\"p\":\"C:\\\\\u20ac\"}", `{ "a" : [ 1 , 2 ] }`, "{\n\t\"a\": \"x y\"\r\n}"}
 	xmlFns := []string{"NewMapXmlReader", "NewMapXmlReaderRaw", "NewMapXmlSeqReader", "NewMapXmlSeqReaderRaw", "HandleXmlReader", "HandleXmlReaderRaw", "x2j-wrapper.ToMap", "x2j-wrapper.XmlMsgsFromReader"}
 	jsonFns := []string{"NewMapJsonReader", "NewMapJsonReaderRaw", "HandleJsonReader", "HandleJsonReaderRaw"}
 	maxDocs := 2
